@@ -6,7 +6,7 @@
      (Proofs/ShutProofs.v), and
    - [shut_obs], the outcome of the sequential scenarios the correspondence
      family "shut" drives on a real daemon. *)
-From VV Require Import Base.Bits Base.Val.
+From VV Require Import Base.Bits Base.Val Gen.GenLife.
 Open Scope string_scope.
 Open Scope list_scope.
 Open Scope N_scope.
@@ -80,8 +80,10 @@ Definition env_step (s : st) : list st :=
 Definition steps (s : st) : list st :=
   thread_step s ++ caller_step s 1 (c1 s) ++ caller_step s 2 (c2 s) ++ caller_step s 3 (c3 s) ++ env_step s.
 
-(* wait(): Ok for SocketBroken, Ok for any request error once shutdown was requested, the error otherwise *)
-Definition wait_ok (s : st) : bool := (res s =? R_BROKEN) || flag s.
+(* wait(): the classification of the daemon thread's result REGENERATED from lib.rs (Gen.GenLife.life_wait_ok; the R_
+   codes are the generator's numbering of the request errors): Ok for SocketBroken, Ok for any request error once
+   shutdown was requested, the error otherwise *)
+Definition wait_ok (s : st) : bool := life_wait_ok (res s) (flag s).
 
 Definition caller_done (c : N) : bool := (c =? 0) || (c =? 3).
 Definition shutdown_returned (s : st) : bool :=
@@ -146,7 +148,8 @@ Definition shut_obs (pos : string) (k : N) (shutdown release_first : bool) : val
         VS (if pclosed s4 then "closed" else "eof"); VS "ok"; VN 0]
   else VL [VS "timeout"; VN 0; VS "timeout"; VS "n/a"; VN 99].
 
-(* serve(): wait's result with clean and partial-header disconnects mapped to success; every worker's exit event raised *)
+(* serve(): wait's result with clean and partial-header disconnects mapped to success (Gen.GenLife.life_serve_forgives);
+   every worker's exit event raised *)
 Definition serve_obs (pos : string) : val :=
   if String.eqb pos "serve_invalid" then VL [VS "err:InvalidMessage"; VN 1; VS "eof"; VS "n/a"; VN 0]
   else VL [VS "ok"; VN 1; VS "closed"; VS "n/a"; VN 0].
